@@ -18,9 +18,14 @@ open Obao Obao.SerialTxn Obao.InmemTxn Obao.CacheTxn
 
 def unq (s : String) : String := if s = "-" then "" else s
 
+/-- behind the encrypting barrier every stored value is a fresh ciphertext: the driver tags each written value with a
+write counter (`<hex>#<n>`) so that the backend's value-based commit verification sees two writes of the same
+plaintext as different stored values — as the real backend does — and strips the tag when a value is shown -/
+def stripTag (v : String) : String := (v.splitOn "#").headD v
+
 def showVal : Option Val → String
   | none => "nil"
-  | some v => "v:" ++ v
+  | some v => "v:" ++ stripTag v
 
 def showRes : Res → String
   | .ok => "ok"
@@ -53,6 +58,9 @@ def parseEvent : List String → Option Event
 structure St where
   cached : Bool
   sys : CSys
+  /-- layer `barrier`: values are encrypted with a fresh nonce on every write -/
+  enc : Bool := false
+  ctr : Nat := 0
   win : Option MWin := none
   stripes : List (String × Nat) := []     -- lock stripe of every key of the case (`stripes` line)
 
@@ -111,6 +119,8 @@ def step (s : St) (fs : List String) : St × String :=
   | ["layer", "bare"] => ({ s with cached := false }, "ok")
   | ["layer", "cache"] => ({ s with cached := true }, "ok")
   | ["layer", "view"] => ({ s with cached := true }, "ok")
+  -- the AES-GCM barrier over inmem: transparent to transactions (no cache of its own)
+  | ["layer", "barrier"] => ({ s with cached := false, enc := true }, "ok")
   | "dump" :: ks =>
     -- the harness dumps through the same (possibly cached) plain read path
     let rec go (s : St) (ks : List String) (acc : List String) : St × String :=
@@ -205,7 +215,14 @@ def step (s : St) (fs : List String) : St × String :=
   | _ =>
     match parseEvent fs with
     | none => (s, "bad-op")
-    | some e =>
+    | some e0 =>
+      -- behind the barrier: tag the written value (a fresh ciphertext per write)
+      let (e, s) := if s.enc then
+          match e0 with
+          | .plain (.put k v) => (Event.plain (.put k (v ++ "#" ++ toString s.ctr)), { s with ctr := s.ctr + 1 })
+          | .op i (.put k v) => (Event.op i (.put k (v ++ "#" ++ toString s.ctr)), { s with ctr := s.ctr + 1 })
+          | e => (e, s)
+        else (e0, s)
       match s.win, e with
       | some m, .commit i =>
         if m.w.id = i then
